@@ -350,7 +350,7 @@ def summarize_run(res, prop, findings, nontrivial=True, sample=None, extra_probe
         "interleavings": [oh],
         "distinct": [sha([scenario_hash or "", oh])] if nontrivial else [],
         "faults": dict((k, v) for k, v in sim.stats.items() if k in ("crash", "restart", "stall", "node_sys_exit",
-                                                                       "callback_exception", "poison-message",
+                                                                       "callback_exception", "poison-message", "clock-jump",
                                                                        "raw-start-event") or k.startswith("worker-")),
         "probes": dict(extra_probes or {}),
         "findings": findings,
